@@ -1,7 +1,8 @@
 // Engine B, module http: the lease listing of the HTTP API on the REAL serve_leases, body-independent (the Verus unit httpd proves the
 // entry count and the string escaping for the body it was written against; the iterator/format! chain that renders an entry is outside it).
 //   http/lease-listing-one-entry-per-lease   for stores holding 0, 1, 3 and 5 leases -- client identifiers of 0, 1, 2, 6 and 255 octets,
-//                                            host names absent / plain / with quote and backslash / with a control character / non-ASCII --
+//                                            host names absent / plain / with quote and backslash / with control characters (every one of them) / non-ASCII, stored option
+//                                            areas that do not decode --
 //                                            GET leases.json answers 200 with a syntactically valid JSON document (RFC 8259, checked by
 //                                            the small parser below) whose "leases" array has exactly one entry per stored lease, carrying
 //                                            that lease's ip, client_id (lower-case hex octets joined by ':'), start, expire and host name
@@ -102,17 +103,24 @@ fn verif_http_contracts() {
     println!("VERIF-B-TABLES total=0 nonempty=0");
     let mut t = Tally::new("http/lease-listing-one-entry-per-lease");
     let ids: Vec<Vec<u8>> = vec![vec![], vec![0x01], vec![0xab, 0x0c], vec![0, 0x5e, 0, 0x53, 0, 0xff], (0..255u32).map(|i| i as u8).collect()];
-    let hosts: Vec<Option<Vec<u8>>> = vec![None, Some(b"host".to_vec()), Some(b"a\"b\\c".to_vec()), Some(b"x\x01y\ttab".to_vec()), Some("b\u{fc}ro".as_bytes().to_vec())];
+    let mut hosts: Vec<Option<Vec<u8>>> = vec![None, Some(b"host".to_vec()), Some(b"a\"b\\c".to_vec()), Some(b"x\x01y\ttab".to_vec()), Some("b\u{fc}ro".as_bytes().to_vec())];
+    // every control octet (each needs an escape RFC 8259 knows) and DEL in one name
+    hosts.push(Some((1u8..=31).chain(std::iter::once(127u8)).collect()));
     let mut stores: Vec<Vec<(Vec<u8>, Option<Vec<u8>>)>> = vec![vec![]];
     for i in &ids { for h in &hosts { stores.push(vec![(i.clone(), h.clone())]); } }
     stores.push(vec![(ids[1].clone(), hosts[1].clone()), (ids[0].clone(), hosts[0].clone()), (ids[3].clone(), hosts[2].clone())]);
     stores.push(ids.iter().zip(hosts.iter()).map(|(i, h)| (i.clone(), h.clone())).collect());
-    for store in stores {
+    // stored option areas that do not decode (truncated value, no end marker, empty): the lease is listed all the same, without a host name
+    let broken: Vec<Vec<u8>> = vec![vec![12, 200, b'x'], vec![12], vec![], vec![53]];
+    let n_regular = stores.len();
+    for b in &broken { stores.push(vec![(ids[1].clone(), None), (ids[2].clone(), Some(b.clone()))]); }
+    for (sn, store) in stores.into_iter().enumerate() {
         let st = store.clone();
+        let raw_area = sn >= n_regular;       // in these stores the second lease's "host" octets are its whole stored option area
         // (own thread and runtime per listing: a panic inside the handler is caught as a failed join)
         let res = std::thread::spawn(move || {
             tokio::runtime::Builder::new_current_thread().enable_all().build().expect("runtime").block_on(async move {
-                let clients: Vec<(Vec<u8>, Vec<u8>)> = st.iter().map(|(i, h)| (i.clone(), opts_with_host(h.as_deref()))).collect();
+                let clients: Vec<(Vec<u8>, Vec<u8>)> = st.iter().enumerate().map(|(k, (i, h))| (i.clone(), if raw_area && k == 1 { h.clone().unwrap_or_default() } else { opts_with_host(h.as_deref()) })).collect();
                 let (svc, granted) = match crate::dhcp::verif_httpsvc::service(&clients).await { Ok(x) => x, Err(e) => return Err(e) };
                 let rows = svc.get_leases().await;
                 let req = Request::builder().uri("/api/v1/leases.json").body(Full::<Bytes>::new(Bytes::new())).expect("request");
@@ -123,7 +131,7 @@ fn verif_http_contracts() {
                 Ok((status, body, granted, rows))
             })
         }).join();
-        let describe = || format!("store of {} lease(s) (client id, host name) {:?}", store.len(), store.iter().map(|(i, h)| (if i.len() > 8 { format!("<{} octets>", i.len()) } else { format!("{:02x?}", i) }, h.as_ref().map(|h| String::from_utf8_lossy(h).to_string()))).collect::<Vec<_>>());
+        let describe = || format!("store of {} lease(s) (client id, host name{}) {:?}", store.len(), if raw_area { "; the second entry's octets are its whole stored option area, which does not decode" } else { "" }, store.iter().map(|(i, h)| (if i.len() > 8 { format!("<{} octets>", i.len()) } else { format!("{:02x?}", i) }, h.as_ref().map(|h| String::from_utf8_lossy(h).to_string()))).collect::<Vec<_>>());
         match res {
             Err(_) => t.check(false, || format!("{}: the handler PANICKED, no document is served", describe())),
             Ok(Err(e)) => println!("VERIF-B-RIG service could not be built: {}", e),
@@ -143,7 +151,7 @@ fn verif_http_contracts() {
                         let e = es[0];
                         if field(e, "client_id") != Some(&J::Str(want_id.clone())) { why = format!("client_id of {} is {:?}, expected {:?}", ip, field(e, "client_id"), want_id); return false; }
                         if field(e, "start") != Some(&J::Num(row.start as f64)) || field(e, "expire") != Some(&J::Num(row.expire as f64)) { why = format!("start/expire of {} are {:?}/{:?}, stored {}/{}", ip, field(e, "start"), field(e, "expire"), row.start, row.expire); return false; }
-                        let want_host = store[k].1.as_ref().map(|h| J::Str(String::from_utf8_lossy(h).to_string()));
+                        let want_host = if raw_area && k == 1 { None } else { store[k].1.as_ref().map(|h| J::Str(String::from_utf8_lossy(h).to_string())) };
                         if field(e, "host-name") != want_host.as_ref() { why = format!("host-name of {} is {:?}, expected {:?}", ip, field(e, "host-name"), want_host); return false; }
                     }
                     true
